@@ -6,3 +6,5 @@ pub mod enc;
 pub mod c17;
 pub mod c14;
 pub mod c15;
+pub mod menc;
+pub mod c13;
